@@ -595,3 +595,17 @@ Qed.
 Corollary keyspace_no_tombstone_no_foreign s cid k v xs : tables_ok s -> In (k, v, xs) (keyspace s cid) ->
   exists r, get_doc s (cid, k) = Some r /\ r_value r <> None.
 Proof. intros Hs H. apply (keyspace_spec s cid k v xs Hs) in H. destruct H as (r & Hg & Hv & _). exists r. split; [exact Hg | congruence]. Qed.
+
+(* ------------------------------------------------------------------------------------------ *)
+(* views: sorting the index rows neither drops nor invents rows *)
+
+Lemma insert_vrow_In d l x : In x (insert_vrow d l) <-> x = d \/ In x l.
+Proof. induction l as [|d' r IH]; cbn; [intuition|]. destruct (vrow_lt d d'); cbn; rewrite ?IH; intuition. Qed.
+
+Theorem sort_vrows_In : forall l x, In x (sort_vrows l) <-> In x l.
+Proof.
+  intros l x. unfold sort_vrows.
+  assert (forall acc, In x (fold_left (fun a d => insert_vrow d a) l acc) <-> In x l \/ In x acc) as H.
+  { induction l as [|d r IH]; intros acc; cbn [fold_left]; [cbn; intuition|]. rewrite IH, insert_vrow_In. cbn. intuition. }
+  rewrite H. cbn. intuition.
+Qed.
